@@ -257,7 +257,8 @@ _c("C16",
    "PARTIAL. Coq theorems (Props/C16.v, closed under the global context) over models of make_signature (Stubs/Signature.v) and of "
    "the stub generator at the level of (name, has-default, kind) (Stubs/StubModel.v), for hierarchies of any depth by induction: "
    "stub keywords = runtime parameters minus constants, no default iff required (under def_ok/tok_safe; unconditional statement "
-   "refuted), ** iff additional properties (under kw_safe; refuted otherwise), helper methods carry the same keywords, no mandatory "
+   "refuted), ** iff additional properties (under kw_safe; refuted otherwise), helper methods carry the same keywords (the two classmethods minus a keyword named like one of their own parameters cls / "
+   "source_object / ignore_props, which they never repeat: C16_no_duplicate_arguments), no mandatory "
    "parameter after an optional one, determinism. That the text parses, every class is declared, enum names are kept and output is "
    "byte-identical across PYTHONHASHSEED values are runtime facts decided by the harness (real create_stub_for_file in "
    "subprocesses, ast.parse/compile, inspect.signature, constructor probes), not by the theorems.",
